@@ -72,6 +72,33 @@ def ps1(chk, files, rule="PS-1", extra_exceptions=None):
     return total_pairs
 
 
+def ps2(chk, files, rule="PS-2"):
+    """Orchard and Ironwood sibling code must be the same code with the pool renamed"""
+    an = analyzer()
+    total = 0
+    for rel in files:
+        fnd, npairs = poolsib.untagged_differences(an, rel)
+        if fnd is None:
+            chk.fail(rule, rel + "/missing", "anchored file %s not found" % rel)
+            continue
+        total += npairs
+        ordn = {}
+        for x in fnd:
+            k0 = "%s/%s/%s" % (rel, x["fn"], x["ident"])
+            ordn[k0] = ordn.get(k0, 0) + 1
+            chk.fail(rule, "%s#%d" % (k0, ordn[k0]), x["msg"], "%s:%d" % (rel, x["line"]))
+        good = max(npairs - len(fnd), 0)
+        chk.obligations += good
+        chk.discharged += good
+        chk.rules[rule]["instances"] += good
+        chk.rules[rule]["discharged"] += good
+        if npairs:
+            chk.samples.append({"rule": rule, "obligation": "%s: %d Ironwood segments equal their Orchard "
+                                "sibling up to the pool renaming" % (rel, npairs), "result": "discharged"})
+    chk.analysed["ps2_sibling_pairs"] = chk.analysed.get("ps2_sibling_pairs", 0) + total
+    return total
+
+
 # ----------------------------------------------------------------------------- PS-3
 _FAM = poolsib.Family(POOLS)
 
@@ -145,6 +172,34 @@ def origin_tags(body, o, depth=0, acc=None, argtags=None):
     return acc
 
 
+def chain_tags(body, du, op, depth=0, acc=None):
+    """pool tags of the NAMED locals an operand is computed from (a named local decides; unnamed
+    temporaries are looked through: copies, borrows, call arguments)"""
+    acc = acc if acc is not None else set()
+    if depth > 16 or op is None or op.kind not in ("copy", "move"):
+        return acc
+    nm = body.local_name(op.place.local)
+    if nm and nm not in ("val", "residual", "iter", "e", "err", "acc", "self"):
+        t = name_tag(nm)
+        if t:
+            acc.add(t)
+        return acc
+    d = du.single(op.place.local)
+    if d is None:
+        return acc
+    kind, _bi, x = d
+    import zf
+    if kind == "call":
+        for a in x.args:
+            chain_tags(body, du, a, depth + 1, acc)
+    else:
+        for o in (x.rv.ops or []):
+            chain_tags(body, du, o, depth + 1, acc)
+        if x.rv.kind in ("ref", "raw", "disc") and x.rv.place is not None:
+            chain_tags(body, du, zf.Op("copy", zf.Place([x.rv.place.local])), depth + 1, acc)
+    return acc
+
+
 def ps3(chk, w, in_scope, rule="PS-3", min_tagged_params=2):
     """every call (in functions selected by in_scope) to a workspace function that has at least
     `min_tagged_params` pool-tagged parameter names: the pool tag of each argument must equal the
@@ -183,6 +238,8 @@ def ps3(chk, w, in_scope, rule="PS-3", min_tagged_params=2):
                 if not pt:
                     continue
                 at = origin_tags(f.body, du.origin(a))
+                if not at:
+                    at = chain_tags(f.body, du, a)
                 if len(at) == 1:
                     (x,) = at
                     seen_tags.setdefault(x, []).append(i)
